@@ -115,7 +115,11 @@ class DBConnection:
                 'URIs cannot express passwords without usernames')
         uri = '%s://%s' % (self.dbName, auth)
         if self.host:
-            uri += self.host
+            if ':' in self.host and not self.host.startswith('['):
+                # an IPv6 literal
+                uri += '[%s]' % self.host
+            else:
+                uri += self.host
             if self.port:
                 uri += ':%d' % self.port
         uri += '/'
@@ -136,7 +140,11 @@ class DBConnection:
                 'URIs cannot express passwords without usernames')
         uri = '%s://%s' % (self.dbName, auth)
         if self.host:
-            uri += self.host
+            if ':' in self.host and not self.host.startswith('['):
+                # an IPv6 literal
+                uri += '[%s]' % self.host
+            else:
+                uri += self.host
             if self.port:
                 uri += ':%d' % self.port
         uri += '/'
